@@ -1,6 +1,7 @@
 package main
 
 import (
+	"verif.local/mc/harness/c14"
 	"verif.local/mc/harness/c01"
 	"verif.local/mc/harness/c15"
 	"verif.local/mc/harness/c13"
@@ -21,6 +22,7 @@ import (
 )
 
 func init() {
+	register("C14", "exploration", c14.Run)
 	register("C01", "exploration", c01.Run)
 	register("C15", "model_checking", c15.Run)
 	register("C13", "fault_enumeration", c13.Run)
